@@ -7,7 +7,7 @@ bind(fn).with_flat_map(identity); a name given to the base executor is inherited
 import z3
 
 from pyvc.vals import Val, NONE, I, B, R, Z, ref, fresh, cls_of, ArgPack, Cls, STRINGS, strv
-from pyvc.verify import Unit, sym_inst, sym_val, user_calls
+from pyvc.verify import Unit, sym_inst, sym_val, user_calls, new_inst
 from pyvc.symexec import Raise, LoopSpec
 from pyvc.b_ops import str_format
 from .base import make_cfg, FIELD_TYPES, INST, OPT, RecordCall
@@ -54,7 +54,7 @@ def _cfg():
 # ---- BoundCallable.__init__ / __call__ ---------------------------------------------------------------------
 def _setup_bc_init(kind):
     def setup(engine, st):
-        bc = sym_inst(engine, st, "BoundCallable", "self")
+        bc = new_inst(engine, st, "BoundCallable")
         ex = sym_val(engine, st, "any", "executor")
         if kind == "bound":
             fn = sym_inst(engine, st, "BoundCallable", "fn")       # binding a bound callable again
